@@ -416,9 +416,21 @@ func entityRemovalCascade(p *Prog, r *Report, ruleA, ruleB string) {
 		nRemovers++
 		base := FnName(fn)
 		// the loop over the announced entries runs to the end: a notification may add one entity and remove another
-		if ab := loopAbandoned(removal.Block()); true {
-			r.Check(ruleB, base+"|every-entry-processed", len(ab) == 0, p.InstrPos(removal), fmt.Sprintf("the loop over the announced entity entries is left early only by returning an error; other exits: %v", ab))
+		ab := loopAbandoned(removal.Block())
+		for hop, at := 0, fn; hop < 3 && len(ab) == 1 && ab[0] == "no loop"; hop++ {
+			// the removal branch was extracted: the loop over the entries is in the (single) caller
+			callers := p.Callers(at)
+			if len(callers) != 1 {
+				ab = nil // not inside a loop at all: nothing to abandon
+				break
+			}
+			ab = loopAbandoned(callers[0].Block())
+			at = callers[0].Parent()
 		}
+		if len(ab) == 1 && ab[0] == "no loop" {
+			ab = nil
+		}
+		r.Check(ruleB, base+"|every-entry-processed", len(ab) == 0, p.InstrPos(removal), fmt.Sprintf("the loop over the announced entity entries is left early only by returning an error; other exits: %v", ab))
 		arg := Path(callArgs(&removal.Call)[0])
 		elem := strings.TrimSuffix(arg, ".Description.EntityAddress.Entity")
 		tested := ""
